@@ -550,6 +550,37 @@ func (r *runner) Run(caseID string) (obs Obs) {
 			obs.ReadAll = firstBugReadAllErr(repo, dir)
 		}
 	}
+	if c.Mode != "L" && c.M.Op == "craft" {
+		// the victim's cache can still be built from scratch and queried
+		r.phase(caseID, "cache.build-after")
+		_ = repo.Close()
+		_ = os.RemoveAll(filepath.Join(dir, ".git", world.Namespace, "cache"))
+		_ = os.RemoveAll(filepath.Join(dir, ".git", world.Namespace, "indexes"))
+		repo2, err := repository.OpenGoGitRepo(dir, world.Namespace, nil)
+		if err != nil {
+			return Obs{Harness: "reopen victim: " + err.Error()}
+		}
+		repo = repo2
+		rc, err := openCache(repo2)
+		obs.Build = strp(errStr(err))
+		if err == nil {
+			r.phase(caseID, "cache.query-after")
+			qerr := ""
+			for _, id := range rc.Bugs().AllIds() {
+				bc, err := rc.Bugs().Resolve(id)
+				if err != nil {
+					qerr = errStr(err)
+					break
+				}
+				snap := bc.Snapshot()
+				_ = snap.Id()
+				_ = snap.Title
+			}
+			obs.Resolve = strp(qerr)
+			r.phase(caseID, "cache.close")
+			_ = rc.Close()
+		}
+	}
 	r.phase(caseID, "done")
 	return obs
 }
